@@ -112,6 +112,7 @@ func (s *memoryStore) AddNodeBalance(nodeID store.NodeID, credit *big.Int) error
 	if ok {
 		balance := s.balances[account]
 		balance.Credit.Add(&balance.Credit, credit)
+		balance.Account = account
 		s.balances[account] = balance
 	} else {
 		balance := s.trials[nodeID]
@@ -135,6 +136,7 @@ func (s *memoryStore) AddAccountBalance(account store.Account, credit *big.Int) 
 
 	balance := s.balances[account]
 	balance.Credit.Add(&balance.Credit, credit)
+	balance.Account = account
 	s.balances[account] = balance
 	return nil
 }
